@@ -148,6 +148,9 @@ type Conn struct {
 	nWrites     int
 	Reads       int
 	Label       string
+	// MutateWrite, if set, may alter the bytes of a Write in flight (after the tap recorded what the
+	// endpoint really wrote); it is cleared by returning true.
+	MutateWrite func(k int, b []byte) (done bool)
 }
 
 // SimLabel describes the connection in stuck-task reports.
@@ -333,6 +336,12 @@ func (c *Conn) Write(b []byte) (int, error) {
 	h.Written = append(h.Written, b...)
 	c.n.St.BytesSent += int64(len(b))
 	data := append([]byte(nil), b...)
+	if c.MutateWrite != nil {
+		if c.MutateWrite(k, data) {
+			c.MutateWrite = nil
+		}
+		c.n.Fault("corrupt")
+	}
 	for len(data) > 0 {
 		n := len(data)
 		switch c.n.Cfg.SegMode {
